@@ -235,6 +235,26 @@ def run(repo, rep, tier):
         detail=str(ups))
     versions_total(repo, rep)
     _objects_by_name(repo, rep)
+    # what a debug template stores under the key differs from what a plain
+    # one stores only by a comment: the file name in it is a literal (%r), so
+    # no name -- a line break in it -- can turn the comment into code that
+    # the next template of that key would run
+    ck = repo.func("chameleon.template.BaseTemplate._cook")
+    heads = [(t_, a_) for t_, a_, n_ in L.fmt_sites(ck.node)
+             if t_.lstrip().startswith("#")]
+    okh = bool(heads)
+    for t_, a_ in heads:
+        import re as _re
+        specs = _re.findall(r"%[-#0 +]*\d*(?:\.\d+)?([a-zA-Z%])", t_)
+        specs = [x for x in specs if x != "%"]
+        first_line = t_.split("\n", 1)[0]
+        n_first = len([x for x in _re.findall(r"%([a-zA-Z])", first_line)])
+        if any(sp != "r" for sp in specs[:n_first]):
+            okh = False
+    rep.check(okh, "R15.2", ck.qualname, "the comment a debug template puts "
+              "in front of the stored source quotes the file name as a "
+              "literal", construct="debug-comment-literal",
+              where=L.where(ck), detail="; ".join(t_[:40] for t_, a_ in heads))
     L.state_rule(repo, rep)
 
 
@@ -409,21 +429,42 @@ def _coverage(repo, rep):
     ups.sort(key=lambda n: (n.lineno, n.col_offset))
     fields = []
     cls_attrs = []
+    cls_ident = False
     for u in ups:
         e = L.inline_locals(d.node, u.args[0])
         t_ = src(e).replace(" ", "")
         for _ in range(3):      # locals of locals (cls = type(self))
             e = L.inline_locals(d.node, e)
         t_ = src(e).replace(" ", "")
+        # (everything the value can be made of: all definitions of the
+        # locals in it, transitively)
+        reach, seen_, todo_ = [e], set(), [e]
+        while todo_:
+            x_ = todo_.pop()
+            for nm in ast.walk(x_):
+                if isinstance(nm, ast.Name) and nm.id not in seen_:
+                    seen_.add(nm.id)
+                    for a_ in ast.walk(d.node):
+                        if isinstance(a_, ast.Assign) and any(
+                                isinstance(tg, ast.Name) and tg.id == nm.id
+                                for tg in a_.targets):
+                            reach.append(a_.value)
+                            todo_.append(a_.value)
+        rt_ = " ".join(src(x_) for x_ in reach).replace(" ", "")
         kind = "body" if "body" in t_ else \
-            "class" if ("type(self)" in t_ or "self.__class__" in t_) and (
-                "__name__" in t_ or "__qualname__" in t_) else \
+            "class" if ("type(self)" in rt_ or "self.__class__" in rt_) and (
+                "__name__" in rt_ or "__qualname__" in rt_) else \
             "filename" if "filename" in t_ else "other"
         if kind == "class":
-            cls_attrs = sorted({n.attr for n in ast.walk(e)
+            cls_attrs = sorted({n.attr for x_ in reach for n in ast.walk(x_)
                                 if isinstance(n, ast.Attribute)
                                 and n.attr in ("__name__", "__qualname__",
                                                "__module__")})
+            cls_ident = any(
+                isinstance(c_, ast.Call) and src(c_.func) == "id" and
+                c_.args and src(L.inline_locals(d.node, c_.args[0])) in (
+                    "type(self)", "self.__class__")
+                for x_ in reach for c_ in ast.walk(x_))
         term = isinstance(e, ast.BinOp) and isinstance(e.op, ast.Add) and \
             isinstance(e.right, ast.Constant) and e.right.value in (
                 b"\n", b"\0", b";")
@@ -446,6 +487,13 @@ def _coverage(repo, rep):
                   "must not share stored modules)",
                   construct="base:class-qualified", where=L.where(d),
                   detail=str(cls_attrs))
+        # ... and a class made inside a function ('<locals>' in its
+        # qualified name) shares that name with its siblings: the key
+        # carries its identity as well
+        rep.check(cls_ident, "R15.1", d.qualname, "a template class made "
+                  "inside a function is told from its siblings by its "
+                  "identity", construct="base:class-local-identity",
+                  where=L.where(d))
     bodies = [u for u in ups if "body" in src(u)]
     okb = bool(bodies)
     for u in bodies:
